@@ -519,10 +519,45 @@ pub fn dense_recursive_project(n: usize, style: usize) -> Project {
     }
 }
 
+/// Two towers of types in which every level mentions the level below twice (objects or tuples),
+/// compared by a conditional type: linear for an engine that remembers what it has decided,
+/// 2^depth otherwise.
+fn deep_doubling_project(seed: u64, rng: &mut Rng) -> Project {
+    let depth = rng.range(24, 40);
+    let tuple = rng.chance(1, 3);
+    let mut src = String::from("import parse from \"./gen/parser\";\n");
+    for (p, leaf) in [("A", "{ v: string }"), ("B", "{ v: string | number }")] {
+        src.push_str(&format!("export type {}0 = {};\n", p, leaf));
+        for k in 1..=depth {
+            if tuple {
+                src.push_str(&format!("export type {}{} = [{}{}, {}{}];\n", p, k, p, k - 1, p, k - 1));
+            } else {
+                src.push_str(&format!("export type {}{} = {{ left: {}{}; right: {}{} }};\n", p, k, p, k - 1, p, k - 1));
+            }
+        }
+    }
+    src.push_str(&format!("export type Fits = A{} extends B{} ? \"yes\" : \"no\";\nexport type FitsNot = B{} extends A{} ? \"yes\" : \"no\";\n", depth, depth, depth, depth));
+    src.push_str(&format!("parse.buildParsers<{{ Fits: Fits; FitsNot: FitsNot; Top: A{} }}>();\n", depth.min(6)));
+    let mut files: BTreeMap<String, String> = BTreeMap::new();
+    files.insert("/p/entry.ts".into(), src);
+    Project {
+        id: format!("deep_{:08x}", (seed & 0xffff_ffff) as u32),
+        origin: "verif/sim/src/gen.rs deep_doubling_project".into(),
+        origin_kind: "synthetic".into(),
+        entry: "/p/entry.ts".into(),
+        settings: Settings { string_formats: vec![], number_formats: vec![] },
+        module: "esm".into(),
+        files,
+    }
+}
+
 pub fn synthetic_project(seed: u64) -> Project {
     let mut rng = Rng::new(seed ^ 0x5EED_0F_7E57);
     if rng.chance(1, 40) {
         return barrel_mesh_project(seed, &mut rng);
+    }
+    if rng.chance(1, 40) {
+        return deep_doubling_project(seed, &mut rng);
     }
     let n_types = rng.range(3, 8);
     let n_files = rng.range(1, 3);
@@ -575,6 +610,7 @@ pub fn synthetic_project(seed: u64) -> Project {
                     7 => format!("Record<string, {}>", r(&mut rng)),
                     8 => format!("{}<{}>", ["Partial", "Required", "Readonly"][rng.below(3)], r_obj(&mut rng)),
                     9 if use_generic && grow_generic && rng.chance(1, 3) => ["Nest<string>", "Grow<number>", "Swap<string, number>", "Nest<Nest<boolean>>"][rng.below(4)].to_string(),
+                    9 if use_generic && rng.chance(1, 10) => ["Box<string, number>", "Box", "Box<>"][rng.below(2)].to_string(),
                     9 if use_generic => {
                         if rng.chance(1, 2) {
                             format!("Box<{}>", ["string", "number", "boolean"][rng.below(3)])
@@ -753,6 +789,7 @@ pub fn synthetic_project(seed: u64) -> Project {
             extra_keys.push("PN: toString".into());
         }
     }
+    let mut cyc_files = false;
     if rng.chance(1, 8) {
         // declarations that refer to themselves in ways the type checker rejects (or that only a
         // qualified import type can reach): the compiler has to answer with a diagnostic
@@ -781,6 +818,12 @@ pub fn synthetic_project(seed: u64) -> Project {
                 5 => {
                     extra_decls.push("export const SELFARR = [SELFARR[0], 1] as const;\nexport type SelfArr = typeof SELFARR;".into());
                     extra_keys.push("SelfArr: SelfArr".into());
+                }
+                6 if rng.chance(1, 2) => {
+                    // a cycle made of default imports / default exports only
+                    cyc_files = true;
+                    extra_decls.push(["import CycX from \"./cyc_a\";\nexport type ViaCyc = typeof CycX;", "import CycX from \"./cyc_a\";\nexport type ViaCyc = CycX;", "export type ViaCyc = typeof import(\"./cyc_a\");", "import CycS from \"./cyc_self\";\nexport type ViaCyc = typeof CycS;"][rng.below(4)].to_string());
+                    extra_keys.push("ViaCyc: ViaCyc".into());
                 }
                 6 if n_files >= 2 => {
                     extra_decls.push(format!("export type ViaQualifiedImport = import(\"./m1\").{};", ["NsM1.Inner", "NsM1.Missing", "Missing.Inner", "NsM1.Deep.Leaf"][rng.below(4)]));
@@ -1008,6 +1051,11 @@ pub fn synthetic_project(seed: u64) -> Project {
             src.push_str(&format!("parse.buildParsers<{{ {} }}>();\n", keys.join("; ")));
         }
         files.insert(fname(k), src);
+    }
+    if cyc_files {
+        files.insert("/p/cyc_a.ts".into(), "import x from \"./cyc_b\";\nexport default x;\n".into());
+        files.insert("/p/cyc_b.ts".into(), "import x from \"./cyc_a\";\nexport default x;\n".into());
+        files.insert("/p/cyc_self.ts".into(), "import x from \"./cyc_self\";\nexport default x;\n".into());
     }
     // a checkout with CRLF line ends (every line break inside a template literal type included)
     if rng.chance(1, 8) {
